@@ -186,6 +186,8 @@ def _diff(a, b):
             elif x.dtype == np.bool_ or y.dtype == np.bool_ or not np.issubdtype(x.dtype, np.number):
                 if not np.array_equal(x, y):
                     bad.append((k, "value", "non-numeric arrays differ"))
+            elif np.array_equal(x, y, equal_nan=True):
+                pass  # identical including NaN positions (degenerate 1-cell-wide plane profiles are NaN on both sides)
             else:
                 sc = max(1e-300, float(np.max(np.abs(y))) if y.size else 1.0)
                 e = float(np.max(np.abs(x - y))) / sc if x.size else 0.0
